@@ -34,7 +34,9 @@ pub fn gen(r: &mut Rng, _i: u64) -> String {
         let mut cands: Vec<&str> = vec!["hang"];
         if r.chance(1, 2) { cands.insert(r.below(2) as usize, *r.pick(&["refuse", "hang", "refuse6"])); }
         cands.push(*r.pick(&["ok", "ok", "ok6"]));
-        return format!("- {conc} 120 0 {} ; {}", if r.chance(1, 2) { "a" } else { "c" }, cands.join(" ; "));
+        // (through the resolver all candidates share the URI's port, and there is one IPv6 loopback address: at most one IPv6 candidate)
+        let via = if r.chance(1, 2) || cands.iter().filter(|c| c.ends_with('6')).count() > 1 { "a" } else { "c" };
+        return format!("- {conc} 120 0 {via} ; {}", cands.join(" ; "));
     }
     if r.chance(1, 5) {
         // through the resolver: few candidates (often a single one) that answer, refuse or hang, a deadline that is shorter than
